@@ -1,6 +1,6 @@
 (* C10 — property theorems only (FAS consistency of BaseTransfer). *)
 From Coq Require Import List Arith Bool Ring.
-From PySDC Require Import Model.Sweep Model.Transfer Proofs.SweepProofs Proofs.TransferProofs.
+From PySDC Require Import Model.Sweep Model.Transfer Model.MultiLevel Proofs.SweepProofs Proofs.TransferProofs Proofs.MultiLevelProofs Proofs.MultiLevelExample.
 Import ListNotations.
 
 Section C10.
@@ -62,6 +62,34 @@ Section C10.
   Proof. exact (two_level_cycle_fixed_point kO kI kadd kmul ksub kopp keqb Rth keqb_true Mf Mc dtf dtc t0 nodes_c Qf Qc feval_c Rs Ps Rcoll Pcoll Rs_add Rs_sub Rs_zero Ps_sub Ps_ext solve_c QIc). Qed.
 End C10.
 
+(* (4) ANY number of levels, ANY number of sweeps per level: one complete multi-level iteration
+       (Model/MultiLevel.vcycle = it_fine / it_down / it_coarse / it_up of controller_nonMPI on one step, tied to the
+       real controller by exact correspondence on 2-4 level runs) returns a fine level that holds its collocation
+       solution unchanged: same values at the initial point and at every node, same right-hand sides.
+       Linear and nonlinear problems alike: only the solver contract, extensionality of eval_f, lower-triangular
+       preconditioners, linear space transfer and unit row sums of Rcoll are used (hier_ok). *)
+Section C10_multilevel.
+  Context {K : Type} (kO kI : K) (kadd kmul ksub : K -> K -> K) (kopp : K -> K) (keqb : K -> K -> bool).
+  Hypothesis Rth : ring_theory kO kI kadd kmul ksub kopp (@eq K).
+  Hypothesis keqb_true : forall a b, keqb a b = true -> a = b.
+  Context {X : Type}.
+  Variable t0 : K.
+  Theorem C10_multilevel_cycle_fixed_point :
+    forall (rest : list (@xfer K X * @level K X)) (L : @level K X) (tau : nat -> option (X -> K)) (s : @lstate K X),
+      hier_ok kO kI kadd kmul ksub keqb L rest ->
+      holds_solution kO kadd kmul t0 L tau s ->
+      same L (vcycle kO kadd kmul ksub keqb t0 L rest tau s) s.
+  Proof. exact (vcycle_fixed_point kO kI kadd kmul ksub kopp keqb Rth keqb_true t0). Qed.
+End C10_multilevel.
+
 Print Assumptions C10_coarse_defect_is_restricted_fine_defect.
 Print Assumptions C10_prolong_zero_correction.
 Print Assumptions C10_two_level_cycle_fixed_point.
+Print Assumptions C10_multilevel_cycle_fixed_point.
+
+(* Non-vacuity: a concrete three-level hierarchy over Qc (2, 2, 1 nodes; 2+1+1+1+2 sweeps) meets the hypotheses *)
+Example C10_multilevel_hypotheses_satisfiable :
+  hier_ok exK0 exK1 Qcanon.Qcplus Qcanon.Qcmult Qcanon.Qcminus ex_eqb ex_fine ex_rest /\
+  holds_solution exK0 Qcanon.Qcplus Qcanon.Qcmult exK0 ex_fine (fun _ => None) ex_state.
+Proof. exact (conj ex_hier_ok ex_holds). Qed.
+Print Assumptions C10_multilevel_hypotheses_satisfiable.
